@@ -143,7 +143,7 @@ def rule_rank(repo):
     for st in f.node.body:
         if isinstance(st, ast.Expr) and isinstance(st.value, ast.Constant):
             continue
-        if isinstance(st, ast.Assert):
+        if __import__('sa.core', fromlist=['x']).as_assert(st) is not None:
             continue
         if isinstance(st, ast.Assign) and isinstance(st.value, ast.Call) and dotted(st.value.func) == 'self._check' and \
                 len(st.targets) == 1 and isinstance(st.targets[0], ast.Name) and st.value.args and dotted(st.value.args[0]) == st.targets[0].id:
